@@ -27,6 +27,7 @@ PLAIN = "crates/cgt-formatter-plain/src/lib.rs"
 VALID = "crates/cgt-core/src/validation.rs"
 WASM = "crates/cgt-wasm/src/lib.rs"
 PDFLIB = "crates/cgt-formatter-pdf/src/lib.rs"
+CONFIG = "crates/cgt-core/src/config.rs"
 TYP = "crates/cgt-formatter-pdf/src/templates/report.typ"
 
 
@@ -82,6 +83,7 @@ SWAP_BNB_S104 = (M,
 
 MUTANTS = {
     "C01": [
+        mut("dedup-lines", "identical adjacent lines collapsed before matching", [(M, "        transactions.sort_by(|a, b| a.date.cmp(&b.date));\n", "        transactions.sort_by(|a, b| a.date.cmp(&b.date));\n        transactions.dedup();\n")], ["R10:"]),
         mut("swap-bnb-s104", "pool matching before 30-day matching", [SWAP_BNB_S104], ["R1:cascade:order"]),
         mut("window-31", "window constant 31", [(BNB, "const BNB_WINDOW_DAYS: i64 = 30;", "const BNB_WINDOW_DAYS: i64 = 31;")], ["R3:window:interval"]),
         mut("window-ge", "day 30 excluded (>=)", [(BNB, "if days_diff > BNB_WINDOW_DAYS {", "if days_diff >= BNB_WINDOW_DAYS {")], ["R3:window:interval"]),
@@ -140,6 +142,7 @@ MUTANTS = {
         mut("neutral-rename-helper", "rename a private helper", [(BNB, "fn apply_split_ratio_effect(", "fn scale_ratio("), (BNB, "apply_split_ratio_effect(&mut cumulative_ratio_effect, tx);", "scale_ratio(&mut cumulative_ratio_effect, tx);")], neutral=True),
     ],
     "C02": [
+        mut("dedup-lines", "identical adjacent lines collapsed before matching", [(M, "        transactions.sort_by(|a, b| a.date.cmp(&b.date));\n", "        transactions.sort_by(|a, b| a.date.cmp(&b.date));\n        transactions.dedup();\n")], ["R10:"]),
         mut("available-drops-reserved", "availability ignores reserved", [(LED, "self.original_amount - self.consumed - self.reserved - self.in_pool", "self.original_amount - self.consumed - self.in_pool")], ["R1:available:reserved"]),
         mut("s104-match-remaining", "Match.quantity = whole remaining", [(S104, "            quantity: matched_qty,\n            allowable_cost: cost,", "            quantity: total_sell_amount,\n            allowable_cost: cost,")], ["R3:Section104"]),
         mut("sameday-consume-other", "lots debited by sale amount, not matched", [(SD, "let cost = ledger.consume_shares_on_date(sell_tx.date, matched_qty);", "let cost = ledger.consume_shares_on_date(sell_tx.date, *sell_amount);")], ["R3:SameDay:debit"]),
@@ -232,6 +235,7 @@ MUTANTS = {
         mut("neutral-explain-from-date", "explain tool uses TaxPeriod::from_date", [(SERVER, "        let year = if date.month() < 4 || (date.month() == 4 && date.day() < 6) {\n            date.year() - 1\n        } else {\n            date.year()\n        };", "        let year = cgt_core::TaxPeriod::from_date(date)\n            .map(|p| i32::from(p.start_year()))\n            .map_err(|e| McpError::invalid_params(e.to_string(), None))?;")], neutral=True),
     ],
     "C08": [
+        mut("folder-entries-conditional", "folder rates applied only when the cache has none for that file yet", [(LOADER, "        })?;\n        cache.extend(entries);\n    }\n", "        })?;\n        if entries.len() > 1 {\n            cache.extend(entries);\n        }\n    }\n")], ["R6:"]),
         mut("fees-use-price", "fees converted from the price field", [(MODELS, "                price: amount_to_gbp(price, date, fx_cache)?,\n                fees: amount_to_gbp(fees, date, fx_cache)?,\n            }),\n            Operation::Sell {", "                price: amount_to_gbp(price, date, fx_cache)?,\n                fees: amount_to_gbp(price, date, fx_cache)?,\n            }),\n            Operation::Sell {")], ["R1:Buy.fees"]),
         mut("year-only-key", "rate looked up for January of the year", [(AMOUNT, ".get(self.currency, date.year(), date.month())", ".get(self.currency, date.year(), 1)")], ["R2:lookup:month"]),
         mut("rate-times", "amount × rate", [(AMOUNT, "        Ok(self.amount / rate_entry.rate_per_gbp)", "        Ok(self.amount * rate_entry.rate_per_gbp)")], ["R3:"]),
@@ -266,12 +270,14 @@ MUTANTS = {
         mut("offset-written-elsewhere", "consume also changes the offset", [(LED, "    pub fn consume(&mut self, amount: Decimal) {\n        self.consumed += amount;", "    pub fn consume(&mut self, amount: Decimal) {\n        self.cost_offset -= amount;\n        self.consumed += amount;")], ["R4:cost_offset:writers"]),
     ],
     "C12": [
+        mut("unstable-canonical-sort", "canonical sort made unstable", [(M, "        transactions.sort_by(|a, b| a.date.cmp(&b.date));\n", "        transactions.sort_unstable_by(|a, b| a.date.cmp(&b.date));\n")], ["R4:"]),
         mut("unbounded-lookahead", "30-day loop has no upper bound", [(BNB, "        if days_diff > BNB_WINDOW_DAYS {\n            break;\n        }\n", "")], ["R1:"]),
         mut("reservation-any-future-date", "reservation counts all later sales", [(BNB, "        .filter(|tx| tx.date == date && tx.ticker == ticker)", "        .filter(|tx| tx.date >= date && tx.ticker == ticker)")], ["R1:"]),
         mut("prepass-into-pooling", "whole-timeline pre-pass result handed to the pooling step", [(M, "                    self.move_buy_to_pool(tx)?;", "                    self.move_buy_to_pool(tx, &cost_offsets)?;"), (M, "    fn move_buy_to_pool(&mut self, tx: &GbpTransaction) -> Result<(), CgtError> {", "    fn move_buy_to_pool(&mut self, tx: &GbpTransaction, later: &[Decimal]) -> Result<(), CgtError> {\n        if later.iter().any(|o| *o > Decimal::ZERO) {\n            return Ok(());\n        }")], ["R2:prepass:uses"]),
         mut("offsets-into-quantity", "pre-pass offsets limit the quantity", [(BNB, "                if available_at_buy_time <= Decimal::ZERO {\n                    continue;\n                }", "                if available_at_buy_time <= cost_offsets.get(idx).copied().unwrap_or(Decimal::ZERO) {\n                    continue;\n                }")], ["R1:", "R2:"]),
     ],
     "C13": [
+        mut("parse-trimmed-input", "parse_file trims the text before parsing (error positions shift)", [(PARSER, "    let inputs = CgtParser::parse(Rule::transaction_list, input)\n", "    let input = input.trim();\n    let inputs = CgtParser::parse(Rule::transaction_list, input)\n")], ["R7:"]),
         mut("comment-not-silent", "COMMENT produces a token again", [(PEST, "COMMENT = _{", "COMMENT = {")], ["R1:"]),
         mut("keyword-case-sensitive", "FEES keyword case-sensitive", [(PEST, "fees = { ^\"FEES\" ~ money }", "fees = { \"FEES\" ~ money }")], ["R3:fees"]),
         mut("no-final-line", "final line needs a newline", [(PEST, "transaction_list = { SOI ~ (line ~ NEWLINE)* ~ line? ~ EOI }", "transaction_list = { SOI ~ (line ~ NEWLINE)* ~ EOI }")], ["R4:"]),
@@ -283,6 +289,7 @@ MUTANTS = {
         mut("arm-missing", "cmd_buy without fees arm removed", [(PARSER, "            [ticker(t), quantity(q), price(p)] => {\n                (t, Operation::Buy {\n                    amount: q,\n                    price: p,\n                    fees: CurrencyAmount::new(Decimal::ZERO, Currency::GBP),\n                })\n            },\n", "")], ["R1:cmd_buy"]),
     ],
     "C14": [
+        mut("decimal-length-refusal", "decimal tokens longer than 20 characters refused before conversion", [(PARSER, "    Decimal::from_str(s).map_err(|_| node.error(format!(\"Invalid decimal: {s}\")))", "    if s.len() > 20 {\n        return Err(node.error(format!(\"Number too long: {s}\")));\n    }\n    Decimal::from_str(s).map_err(|_| node.error(format!(\"Invalid decimal: {s}\")))")], ["R6:"]),
         mut("writer-fee-keyword", "writer emits FEE", [(DSL, "                line.push_str(&format!(\" FEES {}\", format_amount(fees)));\n            }\n            line\n        }\n        Operation::Sell {", "                line.push_str(&format!(\" FEE {}\", format_amount(fees)));\n            }\n            line\n        }\n        Operation::Sell {")], ["R1:Buy:derivable"]),
         mut("writer-swaps-fields", "writer prints price where quantity goes", [(DSL, "                \"{} SELL {} {} @ {}\",\n                date,\n                tx.ticker,\n                amount,\n                format_amount(price)", "                \"{} SELL {} {} @ {}\",\n                date,\n                tx.ticker,\n                price.amount,\n                format_amount(price)")], ["R1:Sell:quantity-field"]),
         mut("writer-rounds", "writer prints 2 decimals", [(DSL, "    format!(\"{} {}\", amount.amount, amount.code())", "    format!(\"{:.2} {}\", amount.amount, amount.code())")], ["R1:"]),
@@ -310,6 +317,7 @@ MUTANTS = {
         mut("days-nonconst", "look-back by an input-derived number of days", [(AWARDS, "        for days_back in 1..=7 {", "        for days_back in 1..=(date.to_string().len() as i64) {")], ["R1:", "R2:"]),
     ],
     "C16": [
+        mut("raw-config-hashmap", "override keys parsed out of a HashMap again", [(CONFIG, "    exemptions: BTreeMap<String, Decimal>,", "    exemptions: HashMap<String, Decimal>,")], ["R1:"]),
         mut("hashmap-years", "tax years iterated in hash order with early exit", [(CALC, "    let mut matches_by_year: BTreeMap<u16, Vec<MatchResult>> = BTreeMap::new();", "    let mut matches_by_year: HashMap<u16, Vec<MatchResult>> = HashMap::new();")], ["R1:calculator::build_all_tax_year_summaries"]),
         mut("holdings-unsorted", "holdings in hash order", [(CALC, "    holdings.sort_by(|a, b| a.ticker.cmp(&b.ticker));\n", "")], ["R1:calculator::calculate", "R4:holdings"]),
         mut("holdings-descending", "holdings sorted descending", [(CALC, "    holdings.sort_by(|a, b| a.ticker.cmp(&b.ticker));", "    holdings.sort_by(|a, b| b.ticker.cmp(&a.ticker));")], ["R3:calculator::calculate"]),
@@ -341,6 +349,7 @@ MUTANTS = {
         mut("mcp-float", "MCP explain converts to f64", [(SERVER, "                    quantity: m.quantity.to_string(),\n                    allowable_cost: m.allowable_cost.to_string(),", "                    quantity: m.quantity.to_string(),\n                    allowable_cost: rust_decimal::prelude::ToPrimitive::to_f64(&m.allowable_cost).unwrap_or(0.0).to_string(),")], ["R2:"]),
     ],
     "C18": [
+        mut("fees-clause-nonzero", "FEES clause printed for any non-zero amount", [(OUTPUT, "        && exp > Decimal::ZERO\n", "        && !exp.is_zero()\n")], ["R3:"]),
         mut("comment-unsanitised", "comment formatter interpolates raw text", [(OUTPUT, "    let single_line = text.replace(['\\n', '\\r'], \" \");\n    format!(\"# {}\", single_line)", "    format!(\"# {}\", text)")], ["R4:"]),
         mut("sanitise-only-lf", "only \\n replaced", [(OUTPUT, "text.replace(['\\n', '\\r'], \" \")", "text.replace('\\n', \" \")")], ["R4:"]),
         mut("wildcard-arm", "NonCgt arm becomes a wildcard", [(SCHWAB, "                SchwabTransaction::NonCgt => {\n                    skipped_count += 1;\n                }", "                _ => {\n                    skipped_count += 1;\n                }")], ["R1:"]),
